@@ -153,7 +153,25 @@ impl Monitor for C01 {
             return;
         }
         self.rep.count("accepted batches");
-        let allow = batch_allowance(w.net, &ev.txs);
+        let mut allow = batch_allowance(w.net, &ev.txs);
+        // proof-of-work-backed ERG: at most the reference reward of each mint
+        for tx in ev.txs.iter().filter(|t| t.kind == TxKind::DoscMint) {
+            self.rep.count("accepted DoscMint transactions");
+            let erg_out: u128 = tx.outputs.iter().filter(|o| o.denom == Denom::Erg).map(|o| o.value.0).sum();
+            let reward = tx.inputs.first().and_then(|id| {
+                let cdh = ev.pre.coins.get(&coin_key(id)).and_then(|v| match classify_coin_entry(v) {
+                    CoinEntry::Coin(c) => Some(c),
+                    _ => None,
+                })?;
+                let tip = w.tip.as_ref()?;
+                let hd = if tip.header().height == cdh.height { tip.header() } else { tip.history(cdh.height)? };
+                crate::refpow::ref_mint(tx, &cdh, &hd, ev.last_header.dosc_speed, ev.pre.snap.height.0)
+            });
+            if let Some((_, r)) = reward {
+                let allowed = BigInt::from(r).min(BigInt::from(erg_out));
+                *allow.entry(Denom::Erg).or_default() += allowed;
+            }
+        }
         let cls = if crate::mon::c02::has_dependency(&ev.txs) { "dependent-batch" } else if ev.txs.len() > 1 { "independent-batch" } else { "single-tx" };
         let kinds: Vec<String> = {
             let mut k: Vec<String> = ev.txs.iter().map(|t| format!("{}", t.kind)).collect();
